@@ -916,6 +916,13 @@ impl<'a> Driver<'a> {
         };
         self.emit_reset("sfen", text, &b);
         self.observe(&b, None);
+        // the null move from the root itself (refused when in check), with everything observed afterwards
+        {
+            let mut d = b.clone();
+            if self.null_event(&mut d) {
+                self.observe(&d, Some(&b));
+            }
+        }
         let mut api = 0;
         for m in legal_moves(&b) {
             let mut c = b.clone();
